@@ -221,6 +221,47 @@ def gen_real_trees(tier, seed):
     return cases
 
 
+def gen_tl_trees(tier, seed):
+    nmax = 4 if tier == "quick" else 5
+    return [{"n": n, "k": k, "kind": kind, "variant": v} for n in range(2, nmax + 1) for k in range(1, n + 1) for kind in ("multi", "musig") if not (kind == "musig" and k < 2) for v in ("locktime", "sequence")]
+
+
+def run_tl_trees(case):
+    """k-of-n trees generated with a timelock: one leaf per k-subset, each leaf = timelock prefix + the leaf the plain
+    tree has for that subset (so no leaf is spendable without the timelock, and no subset lost its leaf)."""
+    from buidl import pecc, taproot
+    from buidl.timelock import Locktime, Sequence
+
+    res = Res()
+    n, k, kind, variant = case["n"], case["k"], case["kind"], case["variant"]
+    vc = {"engine": "timelock-trees", "case": case}
+    points = [pecc.PrivateKey(d).point for d in tree_keys(n)]
+    trm = taproot.TapRootMultiSig(points, k)
+    build = trm.multi_leaf_tree if kind == "multi" else trm.musig_tree
+    if variant == "locktime":
+        tree = attempt(lambda: build(locktime=Locktime(500)))
+        prefix = b"\x02\xf4\x01\xb1\x75"  # <500> OP_CHECKLOCKTIMEVERIFY OP_DROP
+    else:
+        tree = attempt(lambda: build(sequence=Sequence(5)))
+        prefix = b"\x55\xb2\x75"  # OP_5 OP_CHECKSEQUENCEVERIFY OP_DROP
+    plain = attempt(build)
+    if isinstance(tree, Rejected) or isinstance(plain, Rejected):
+        res.violation(f"C13/timelock-trees/build/{kind}", vc, repr(tree), "tree", "tree generation with a timelock fails")
+        return res
+    plain_scripts = sorted(l.tap_script.raw_serialize() for l in plain.leaves())
+    got = sorted(l.tap_script.raw_serialize() for l in tree.leaves())
+    want = sorted(prefix + sc for sc in plain_scripts)
+    ncomb = len(list(itertools.combinations(range(n), k)))
+    if len(plain_scripts) != ncomb or len(set(plain_scripts)) != ncomb:
+        res.violation(f"C13/timelock-trees/plain-bijection/{kind}", vc, len(plain_scripts), ncomb, "plain tree: leaves are not in bijection with the k-subsets")
+    elif got != want:
+        cls = "timelock-dropped" if got == plain_scripts else ("leaf-count" if len(got) != ncomb else "leaf-scripts")
+        res.violation(f"C13/timelock-trees/{cls}/{kind}/{'k=n' if k == n else 'k<n'}", vc, [g.hex()[:40] for g in got][:4], [w.hex()[:40] for w in want][:4], f"{k}-of-{n} {kind} tree with {variant}: leaves are not exactly <timelock prefix> + the plain leaf of each k-subset")
+    else:
+        res.ok("timelocked tree: one prefixed leaf per k-subset", nontrivial=(n, k, kind, variant), sample=case if (n, k) == (3, 2) else None)
+    return res
+
+
 def tree_keys(n):
     return [filler_int(n, "c13treekey", i, 1, N - 1) for i in range(n)]
 
@@ -352,6 +393,7 @@ def engines(tier, seed):
         es.append(Engine(f"toy-musig-{toy[0]}", gen_toy_musig(toy), run_toy_musig, toy=toy, kind="E3", rule=f"toy curve p={toy[0]} n={toy[1]}: every pair of secrets and every 8th triple (thorough: every triple) x nonce-pair products x 2 messages x (no root | root A | root B), all sessions of a key set on ONE MuSigTapScript object: honest aggregate must be valid under the reference BIP340 verifier for the (reference-tweaked) aggregate key; all permutations same key; every single omission / alteration accepted only if the reference accepts; pairs sharing an x-only key skipped"))
     es += [
         Engine("real-musig", gen_real_musig, run_real_musig, kind="E1", rule="secp256k1: key sets of size 2..3 (thorough ..5), sessions (no root, root A, root B, no root) in turn on ONE MuSigTapScript object, explicit nonces: same oracle as toy-musig; omission/alteration of each partial signature for sizes <= 3"),
+        Engine("timelock-trees", gen_tl_trees, run_tl_trees, kind="E1", rule="every (k, n), 2 <= n <= 4 (thorough 5), multi_leaf_tree / musig_tree generated with locktime=500 and with sequence=5: the leaves are exactly <timelock prefix> + the plain tree's leaf for every k-subset (count C(n,k), no leaf without the timelock)"),
         Engine("real-trees", gen_real_trees, run_real_trees, kind="E1", rule="every (k, n) with 2 <= n <= 4 (thorough 5), multi_leaf_tree for k >= 1 and musig_tree for k >= 2, every leaf: leaves <-> k-subsets bijection; spend by the owning subset verifies under Tx.verify_input and under the reference consensus verifier (script path, control block, CHECKSIG/CHECKSIGADD, BIP341/342 digest); spend by every other k-subset is rejected"),
     ]
     return es
